@@ -114,6 +114,12 @@ Proof. reflexivity. Qed.
    genum/gerror/gsort  *template.Template         parsed once at package initialisation from the
                                                   embedded template text, only executed afterwards
 
+   Every `func init()` of the packages is a row too, ("<package>", "func init()") — the one of
+   gencommon/defined_interfaces.go sets ErrorInterface / ContextInterface from the standard library;
+   a new init() (which could rewrite a template or a table before the first generation) breaks the
+   tie.  The file set is the one go/packages type-checks: every file of the package that takes
+   part in the build, whatever its name.
+
    Not listed (and therefore free to come and go): variables of a basic type, and READ-ONLY tables —
    variables every use of which only reads plain elements (operand of range / len / an index or
    selector expression that is read), e.g. genum's reservedIdentifiers.  Names and files of the
@@ -125,6 +131,7 @@ Proof. reflexivity. Qed.
 Definition expected_state_types : list (string * string) := [
   ("gencommon", "*types.Interface");
   ("gencommon", "*types.Interface");
+  ("gencommon", "func init()");
   ("gencommon", "map[string]*types.Interface");
   ("gencommon", "sync.Mutex");
   ("genum/gen", "*template.Template");
